@@ -11,6 +11,7 @@
 EXTENDS NetworkOrder
 VARIABLE l
 
+Orders == JsonDeserialize(IOEnv.NET_ORDERS)      \* network (case id) -> arrangements of the free labels observed on the unchanged tree
 OpsOf(x) == [o \in 1..Len(x.labels) |-> [labels |-> x.labels[o], shape |-> x.shapes[o], vals |-> x.vals[o]]]
 \* all arrangements of a sequence of at most 4 distinct labels
 Arr(s) == {p \in [1..Len(s) -> ToSetOf(s)] : ToSetOf(p) = ToSetOf(s)}
@@ -28,12 +29,17 @@ JudgeNet(ev) ==
              \* L2 binding of the cost model: the logged which_variant must be the one NetworkOrder!CostVariant derives (DRIFT otherwise)
              costDrift == Len(x.labels) = 3 /\ r.variant \in 0..3
                           /\ r.variant # CostVariant(x.labels[1], x.labels[2], x.labels[3], ExtentMap(x.labels, x.shapes))
+             \* the order finding D8 is recognised narrowly: for 3 operands the layout must be the one the L2 model derives from the logged variant
+             \* (NetworkOrder!ImplOrder3); for more operands it must be one of the arrangements recorded for this very network on the unchanged
+             \* tree (spec/net_orders.json; a network that is not in the table is only recognised generically).  Any other arrangement of the
+             \* free labels is tagged pairing_order_other, which no finding lists.
+             known == IF Len(x.labels) = 3 THEN r.variant \in 0..2 /\ ImplOrder3(x.labels[1], x.labels[2], x.labels[3], r.variant) \in others
+                      ELSE ev.case \notin DOMAIN Orders \/ others \subseteq ToSetOf(Orders[ev.case])
          IN (IF costDrift THEN PrintT(<<"DRIFT", l, ev.case, ev.outs[o].cfg, "cost">>) ELSE TRUE) /\
             IF ok THEN TRUE
             ELSE IF others # {}
-                 THEN /\ RejectTag(l, ev.case, ev.outs[o].cfg, "pairing_order")
-                      /\ (IF Len(x.labels) = 3 /\ ~(ImplOrder3(x.labels[1], x.labels[2], x.labels[3], r.variant) \in others)
-                          THEN PrintT(<<"DRIFT", l, ev.case, ev.outs[o].cfg>>) ELSE TRUE)
+                 THEN /\ RejectTag(l, ev.case, ev.outs[o].cfg, IF known THEN "pairing_order" ELSE "pairing_order_other")
+                      /\ (IF Len(x.labels) > 3 THEN PrintT(<<"ORDER", ev.case, SetToSeq(others)>>) ELSE TRUE)
                  ELSE Reject(l, ev.case, ev.outs[o].cfg)
 
 Init == l = 1
